@@ -223,7 +223,7 @@ func solveFile(file string, timeoutS int, quickOnly bool) solveResult {
 		go func(i int, sp solverSpec) {
 			if i > 0 {
 				select {
-				case <-time.After(time.Duration(1500*i) * time.Millisecond):
+				case <-time.After(time.Duration(700+400*i) * time.Millisecond):
 				case <-cctx.Done():
 					ch <- solveResult{result: "cancelled", backend: sp.name}
 					return
